@@ -378,6 +378,9 @@ func (g *Gen) Fail(d int) string {
 		`$toMillis("notadate")`, `$fromMillis(1, "[Q]")`, `$ ~> |items|"notanobject"|`, `$ ~> |items|{}, 1|`,
 		`$substring()`, `$single(nums)`, `$reduce(nums, function($a){$a})`, `$formatBase(1, 99)`,
 		`function($x)<n:n>{$x}("s")`, `$map(nums, function($v){$v + name})`,
+		// values that cannot be stringified (failure inside the encoder)
+		`$string([$sum([1e308, 1e308])])`, `"x" & [$sum([1e308, 1e308])]`, `$string({"a": $sum([1e308, 1e308])})`,
+		`$ ~> |items|{"r": $sum([1e308, 1e308])}|`,
 		// failures deep inside nested user-defined function calls
 		`($f := function($n){$n = 0 ? $error("deep") : $f($n - 1)}; $f(40))`,
 		`($f := function($n){$n = 0 ? name + 1 : $f($n - 1)}; $f(25))`,
